@@ -723,6 +723,158 @@ def input_flag_test(ctx, Sim):
             quiet_close(sim)
 
 
+# --------------------------------------------------------------------------------------------
+# exhaustive whole/fractional layouts of the n-ary operations
+
+def layout_values(l, f, n, mask, shift=0):
+    """Scaled values for one layout: bit i of mask set -> position i whole, else fractional.
+    Small magnitudes so that every product of up to 7 factors stays in range."""
+    U = 2 ** f
+    W = [2, -1, 1, 1, -2, 1, 2, -1, 3]
+    F = [U + U // 10 + 1, U - U // 10 - 1, -(U + U // 4) - 1, U - U // 4 + 1, U // 2 + 3, -(U - 3), U + 5, 3, U + U // 3]
+    out = []
+    for i in range(n):
+        j = (i + shift) % len(W)
+        out.append([W[j] * U, True] if (mask >> i) & 1 else [F[j], False])
+    return out
+
+
+def make_layout_prog(l, f, nmax_nary, nmax_list, records):
+    U = 2 ** f
+
+    async def prog(mpc, mods, pid):
+        secfxp = mpc.SecFxp(l, f)
+
+        def mk(vf):
+            v, fl = vf
+            return secfxp(v // U) if fl else secfxp(secfxp.field(v), integral=False)
+
+        async def emit(op, ins, z, extra=None):
+            zs = flatten(z)
+            vals = [int(v) for v in await mpc.output(zs, raw=True)]
+            records.append({'t': [l, f], 'op': op, 'ins': ins, 'vals': vals, 'flags': [bool(a.integral) for a in zs],
+                            'extra': extra, 'cfg': [1, 0], 'layout': True})
+        for n in range(1, nmax_nary + 1):
+            for mask in range(2 ** n):
+                xs = layout_values(l, f, n, mask)
+                ys = layout_values(l, f, n, (mask * 5 + 3) % (2 ** n), shift=3)
+                try:
+                    X, Y = [mk(v) for v in xs], [mk(v) for v in ys]
+                    await emit('prod', xs, mpc.prod(X))
+                    await emit('sum', xs, mpc.sum(X))
+                    await emit('in_prod', [xs, ys], mpc.in_prod(X, Y))
+                    await emit('in_prod', [xs, xs], mpc.in_prod(X, X))
+                    if n <= nmax_list:
+                        await emit('min', xs, mpc.min(X))
+                        await emit('max', xs, mpc.max(X))
+                        await emit('vector_add', [xs, ys], mpc.vector_add(X, Y))
+                        await emit('vector_sub', [xs, ys], mpc.vector_sub(X, Y))
+                        await emit('schur_prod', [xs, ys], mpc.schur_prod(X, Y))
+                        a = ys[0]
+                        await emit('scalar_mul', [a, xs], mpc.scalar_mul(mk(a), X))
+                        c = mask & 1
+                        await emit('if_else_list', [xs, ys], mpc.if_else(secfxp(c), X, Y), extra=c)
+                except Exception as exc:  # noqa
+                    records.append({'t': [l, f], 'op': 'layout n=%d mask=%d' % (n, mask), 'exc': repr(exc)[:200]})
+        return len(records)
+    return prog
+
+
+def layout_stream(ctx, Sim, records):
+    """ALL 2^n whole/fractional layouts, n = 1..7, of prod / sum / in_prod (n <= 5 also min, max and the
+    elementwise list operations): the internal per-level integrality bookkeeping of prod must stay
+    aligned with the values for every layout."""
+    n0 = len(records)
+    for (l, f, nn, nl) in [(32, 16, 7, 5), (64, 32, ctx.n(5, 7), ctx.n(3, 5)), (16, 8, ctx.n(4, 6), ctx.n(3, 4))]:
+        recs = []
+        sim = Sim(m=1, t=0, seed=ctx.seed + 11)
+        try:
+            sim.start()
+            res = sim.run(make_layout_prog(l, f, nn, nl, recs), idle_limit=20000, spins=400)
+        finally:
+            quiet_close(sim)
+        if any(not isinstance(x, int) for x in res):
+            ctx.broken.append({'kind': 'run', 'what': 'layout program did not complete', 'type': [l, f], 'res': str(res)[:300]})
+        records += recs
+    ctx.extra['layout_records'] = len(records) - n0
+    ctx.extra['exhaustive'] = True
+    ctx.log('%d records from exhaustive whole/fractional layouts (n = 1..7)' % (len(records) - n0))
+
+
+# --------------------------------------------------------------------------------------------
+# constructor stream: flag inferred from a public value
+
+def constructor_stream(ctx, Sim):
+    """secfxp(v) for ints and floats v = k +- d around whole numbers: flag => stored scaled value is a
+    multiple of 2^f; stored value = round(v * 2^f); a following multiplication is right."""
+    import math
+    nviol = 0
+    for (l, f) in [(32, 16), (64, 32), (16, 8), (24, 5), (96, 48), (8, 4)]:
+        U = 2 ** f
+        top = 2 ** (l - f - 1)
+        ks = [k for k in (0, 1, -1, 3, 7, -12, 100, 30000, 2 ** 20 + 1, 2 ** 30 - 1) if abs(k) < top // 2]
+        ds = [0.0, 2.0 ** -(f + 1), 2.0 ** -f, 2.0 ** -(f - 1), 2.0 ** -(f + 2), 3 * 2.0 ** -(f + 1), 2.0 ** -(f + 8), 1e-6, 1e-9, 1e-12]
+        cases = []
+        for k in ks:
+            cases.append(k)                        # exact integer (type int)
+            for d in ds + [1e-9 * abs(k), 1e-12 * abs(k), 2e-10 * abs(k), 5e-7 * abs(k)]:
+                for sgn in (1, -1):
+                    cases.append(float(k) + sgn * d)
+        cases += [0.5, -0.5, 1 / 3, 2.5, 1e-30, -1e-30, float(U), 0.1 + 0.2]
+        seen, uniq = set(), []
+        for v in cases:
+            key = (type(v).__name__, v)
+            if key not in seen and abs(v) < top // 2:
+                seen.add(key)
+                uniq.append(v)
+        cases = uniq
+        rec = []
+
+        async def prog(mpc, mods, pid, l=l, f=f, cases=cases, rec=rec):
+            secfxp = mpc.SecFxp(l, f)
+            half = secfxp(secfxp.field(U // 2 + 1), integral=False)      # 0.5 + 2^-f, fractional
+            for v in cases:
+                try:
+                    a = secfxp(v)
+                    fl = bool(a.integral)
+                    stored = int(await mpc.output(a, raw=True))
+                    prodv = int(await mpc.output(a * half, raw=True))
+                    sq = int(await mpc.output(a * a, raw=True)) if abs(stored) < 2 ** ((l + f) // 2 - 1) else None
+                    rec.append((v, fl, stored, prodv, sq))
+                except Exception as exc:  # noqa
+                    rec.append((v, 'EXC', repr(exc)[:200]))
+            return len(rec)
+        sim = Sim(m=1, t=0, seed=ctx.seed + 13)
+        try:
+            sim.start()
+            sim.run(prog, idle_limit=20000, spins=200)
+        finally:
+            quiet_close(sim)
+        if len(rec) != len(cases):
+            ctx.broken.append({'kind': 'run', 'what': 'constructor program did not complete', 'type': [l, f]})
+        for r in rec:
+            v = r[0]
+            isint = isinstance(v, int)
+            ctx.case({'ctor': [l, f], 'v': repr(v)}, nontrivial=not isint and float(v) != round(v), kind='ctor ' + ('int' if isint else 'float'))
+            if r[1] == 'EXC':
+                ctx.violation('exception op=ctor', {'type': [l, f], 'value': repr(v), 'exc': r[2]})
+                continue
+            _, fl, stored, prodv, sq = r
+            want = v * U if isint else int(round(Fr(v) * U))          # Fraction round = ties to even, as Python's round
+            detail = {'type': [l, f], 'value': repr(v), 'flag': fl, 'stored_scaled': stored, 'expected_scaled': want,
+                      'times_(0.5+2^-f)_scaled': prodv, 'square_scaled': sq}
+            if stored != want:
+                ctx.violation('ctor-value type=%s' % ('int' if isint else 'float'), detail)
+                nviol += 1
+            elif fl and stored % U:
+                ctx.violation('flag-wrong op=ctor type=%s' % ('int' if isint else 'float'), detail)
+                nviol += 1
+            elif abs(prodv * U - stored * (U // 2 + 1)) >= U or (sq is not None and abs(sq * U - stored * stored) >= U):
+                ctx.violation('product-after-ctor type=%s' % ('int' if isint else 'float'), detail)
+                nviol += 1
+    return nviol
+
+
 def field_modulus(Sim, seed):
     out = {}
 
@@ -748,6 +900,8 @@ def run(ctx):
     ctx.extra['flag_sites'] = nsite
     ctx.extra['flag_sites_by_kind'] = {k: sum(1 for s in sites if s['kind'] == k) for k in ('return', 'ctor', 'assign', 'guard')}
     ctx.extra['constructor_inference'] = G.init_inference()
+    ctor_src = sorted(i['src'] for i in ctx.extra['constructor_inference'] if i['class'] == 'SecureFixedPoint')
+    ctor_unrecognised = ctor_src != ['integral = True', 'integral = value.is_integer()']
     ctx.log('translator: %d flag sites %s' % (nsite, ctx.extra['flag_sites_by_kind']))
     ok = ctx.build(['MPyC.Fxp'])
     ok = ok and ctx.check_props(extra_files=['gen/FlagRules.v', 'gen/FlagOblig.v'])
@@ -831,6 +985,8 @@ def run(ctx):
             rec['cfg'] = [m, t]
         records += recs
     ctx.log('%d operation records from %d programs' % (len(records), len(plan)))
+    layout_stream(ctx, Sim, records)
+    constructor_stream(ctx, Sim)
     exprs, meta = [], []
     nbad = 0
     for rec in records:
@@ -870,6 +1026,9 @@ def run(ctx):
         ctx.log('model/implementation disagreements: %d of %d' % (mism, len(exprs)))
     ctx.notes.append('failing rule_consults_all sites: %s' % failing)
     ctx.notes.append('first-element guard sites (listed only): %s' % ctx.extra['guard_sites_first_element'])
+    if ctor_unrecognised:
+        ctx.broken.append({'kind': 'obligation', 'what': 'SecureFixedPoint.__init__ integrality inference is not the recognised '
+                           '(int -> True, float -> value.is_integer()) form', 'source': ctor_src})
     # a failing obligation whose search found no failing input, or a broken proof/correspondence
     if ctx.broken and not ctx.violations:
         ctx.unproved('C03 obligation/correspondence', {'broken': ctx.broken[:5]})
